@@ -31,6 +31,9 @@ EDIT_CLASSES = [
     ("output_mode", True, "ConfigHashData", "validation_library"),
     ("visualize_deps", True, "ConfigHashData", "visualize_deps"),
     # order-only edits: the same items in another source order (the generated order follows the source order)
+    # types that only an event payload reaches (directly / through a field of the payload type)
+    ("event_only_field", False, "FieldHashData", "rust_type"),
+    ("event_nested_field", False, "FieldHashData", "rust_type"),
     ("cmd_order", False, "CommandHashData", "name"),
     ("param_order", False, "ParameterHashData", "name"),
     ("field_order", False, "FieldHashData", "name"),
@@ -77,6 +80,12 @@ def render_sources(st):
         % (rename_all, field_attr, validator, fty, skip, extra, tail_fields)
         + "#[derive(Debug, Clone, Serialize, Deserialize)]\npub enum Status {\n%s%s%s}\n\n" % (vren, variants2, variant)
     )
+    audit_ty = alt(g("event_only_field"), ["String", "i32", "Vec<String>"])
+    detail_ty = alt(g("event_nested_field"), ["bool", "u64", "Option<String>"])
+    src += (
+        "#[derive(Debug, Clone, Default, Serialize, Deserialize)]\npub struct AuditInfo {\n    pub note: %s,\n    pub detail: AuditDetail,\n}\n\n"
+        "#[derive(Debug, Clone, Default, Serialize, Deserialize)]\npub struct AuditDetail {\n    pub flag: %s,\n}\n\n" % (audit_ty, detail_ty)
+    )
     p1 = "%s%s: %s" % (pattr, pname, pty)
     p2 = "verbose_flag: bool"
     plist = "%s, %s" % ((p1, p2) if g("param_order") % 2 == 0 else (p2, p1))
@@ -85,7 +94,8 @@ def render_sources(st):
         % (cra, cmd, plist, chan, ret)
     )
     if not st.get("_noevents", False):
-        second = "#[tauri::command]\npub fn notify(app: AppHandle, %s) -> Result<(), String> {\n    app.emit(\"%s\", &user).ok();\n    Ok(())\n}\n\n" % (evpay, evname)
+        second = ("#[tauri::command]\npub fn notify(app: AppHandle, %s) -> Result<(), String> {\n    app.emit(\"%s\", &user).ok();\n"
+                  "    app.emit(\"audit-logged\", AuditInfo::default()).ok();\n    let audit = AuditInfo::default();\n    app.emit(\"audit-stored\", AuditInfo { note: audit.note, detail: audit.detail }).ok();\n    Ok(())\n}\n\n" % (evpay, evname))
     else:
         second = "#[tauri::command]\npub fn notify(app: AppHandle) -> Result<(), String> {\n    Ok(())\n}\n\n"
     cmds = "use tauri::{AppHandle, Emitter};\nuse tauri::ipc::Channel;\n\n" + (main_cmd + second if g("cmd_order") % 2 == 0 else second + main_cmd)
@@ -109,8 +119,8 @@ def render_config(st):
     return full, {
         "project_path": "src-tauri", "output_path": "out", "validation_library": cfg["validationLibrary"],
         "visualize_deps": cfg["visualizeDeps"], "type_mappings": tm,
-        "default_parameter_case": alt(g("param_case"), ["camelCase", "snake_case", "PascalCase"]),
-        "default_field_case": alt(g("field_case"), ["snake_case", "camelCase", "PascalCase"]),
+        "default_parameter_case": alt(g("param_case"), ["camelCase", "snake_case", "PascalCase", "camel case"]),
+        "default_field_case": alt(g("field_case"), ["snake_case", "snake-case", "camelCase", "PascalCase"]),
     }
 
 
@@ -145,9 +155,24 @@ class Sandbox:
             self.state[aspect] = self.state.get(aspect, 0) + delta
         self.sync()
 
-    def obstacle(self, fault):
+    def obstacle(self, fault, kind=None):
         """make op number `fault` of the plan fail; returns an undo closure"""
         names = self.plan_names()
+        if kind == "devfull" and fault >= 1:
+            # the file can be opened but not written: a symlink to /dev/full (ENOSPC on write / flush)
+            target = os.path.join(self.out, names[fault - 1])
+            os.makedirs(self.out, exist_ok=True)
+            saved = None
+            if os.path.lexists(target):
+                saved = target + ".saved"
+                os.rename(target, saved)
+            os.symlink("/dev/full", target)
+
+            def undo_full():
+                os.remove(target)
+                if saved:
+                    os.rename(saved, target)
+            return undo_full
         if fault == 0:
             # the output path is unusable: a regular file where the directory should be
             if os.path.isdir(self.out):
@@ -184,8 +209,25 @@ class Sandbox:
             names += ["dependency-graph.txt", "dependency-graph.dot"]
         return names
 
-    def run(self, forced=False, fault=None):
-        undo = self.obstacle(fault) if fault is not None else None
+    def run(self, forced=False, fault=None, kind=None, leftover=None):
+        undo = self.obstacle(fault, kind) if fault is not None else None
+        undo_left = None
+        if leftover:
+            # a stale file of a generated-looking name that cannot be removed (immutable)
+            os.makedirs(self.out, exist_ok=True)
+            lp = os.path.join(self.out, leftover)
+            with open(lp, "w") as fh:
+                fh.write("// stale\n")
+            import subprocess
+            imm = subprocess.run(["chattr", "+i", lp], stdout=subprocess.DEVNULL, stderr=subprocess.DEVNULL).returncode == 0
+
+            def undo_left():
+                subprocess.run(["chattr", "-i", lp], stdout=subprocess.DEVNULL, stderr=subprocess.DEVNULL)
+                if os.path.lexists(lp):
+                    os.remove(lp)
+            if not imm:
+                undo_left()
+                undo_left = None
         before = proc.snapshot(self.out) if os.path.isdir(self.out) else {}
         if self.build:
             if forced:
@@ -202,6 +244,8 @@ class Sandbox:
             rc, so, se = proc.run_cli(self.root, args)
         if undo:
             undo()
+        if undo_left:
+            undo_left()
         after = proc.snapshot(self.out) if os.path.isdir(self.out) else {}
         written = sorted(n for n in after if n in FILE_NAMES and after[n] != before.get(n))
         if rc != 0:
@@ -265,7 +309,7 @@ def execute(steps, build=False, name="hist"):
             elif st["k"] == "delete":
                 sb.delete(st["file"])
             elif st["k"] == "run":
-                obs.append(sb.run(forced=st.get("forced", False), fault=st.get("fault")))
+                obs.append(sb.run(forced=st.get("forced", False), fault=st.get("fault"), kind=st.get("kind"), leftover=st.get("leftover")))
     finally:
         sb.close()
     return obs
@@ -274,10 +318,25 @@ def execute(steps, build=False, name="hist"):
 def request(cid, steps, obs, hashed, tables, build=False):
     """the driver request for one executed history"""
     abstract = []
+    state = {}
     for st in steps:
         s2 = dict(st)
         if st["k"] == "edit":
             s2["config"] = st["aspect"] in [e[0] for e in EDIT_CLASSES if e[1]]
+            # an edit that leaves every rendered source and configuration byte unchanged (e.g. an event's name while
+            # the events are switched off) is not an edit of the project: it is not shown to the model
+            before = (render_sources(state), render_config(state))
+            if st["aspect"] == "remove_commands":
+                state["_nocommands"] = not state.get("_nocommands", False)
+            elif st["aspect"] == "toggle_events":
+                state["_noevents"] = not state.get("_noevents", False)
+            else:
+                state[st["aspect"]] = state.get(st["aspect"], 0) + st.get("delta", 1)
+            if (render_sources(state), render_config(state)) == before:
+                continue
+            # ... and an edit of a type that only an event payload reaches changes no output while no event is emitted
+            if st["aspect"] in ("event_only_field", "event_nested_field", "event_name", "event_payload") and state.get("_noevents", False):
+                continue
         abstract.append(s2)
     return {"id": cid, "op": "history",
             "h": core.hashlib.sha1(json.dumps([steps, build], sort_keys=True).encode()).hexdigest()[:16],
